@@ -156,7 +156,9 @@ func (s *Server) ServeHTTP(resp http.ResponseWriter, req *http.Request) {
 	if s.conf.API.RateLimit > 0 {
 		ip := req.Header.Get("X-Forwarded-For")
 		if ip != "" {
-			ip, _, _ = strings.Cut(ip, ", ")
+			// the first entry of the list, entries are separated by a comma with optional spaces
+			ip, _, _ = strings.Cut(ip, ",")
+			ip = strings.TrimSpace(ip)
 		} else {
 			ip = req.RemoteAddr
 			portSep := strings.LastIndex(ip, ":")
